@@ -1,5 +1,6 @@
 import Thanos.Common.Parse
 import Thanos.Model.Quorum
+import Thanos.Model.RWv2
 /-
   Line-protocol driver of the `receive` family (C22 C23 C24 C25 C26).
   One request per line, one answer per line; every line is self-contained.
@@ -14,6 +15,20 @@ import Thanos.Model.Quorum
                  o out-of-order sample | u gRPC Unavailable | U errUnavailable | n errNotReady |
                  N tsdb.ErrNotReady | x gRPC Internal | X plain error
       answer     <writes> <status>/<status>/…      writes = `e:r:id.id` sorted, joined by `,`
+
+  v2.tr <syms> <ts>*          translateV2ToV1                               (C26)
+  v2.http <syms> <ts>*        the request through receiveHTTP, one peer that stores everything
+      syms       `_` | sym(,sym)*            sym = `x` followed by the hex of the string
+      ts         refs|samples|exemplars|hists|meta
+      refs       `_` | nat(.nat)*
+      samples    `_` | bits:ts:startTs (,…)               (bits = the float64 as an integer)
+      exemplars  `_` | refs:bits:ts (,…)
+      hists      `_` | cnt:sum:schema:zth:zcnt:nspans:ndeltas:ncounts:pspans:pdeltas:pcounts:hint:ts:custom:startTs (,…)
+                 cnt = n | i<nat> | f<bits>; spans = `_` | <int>x<nat>(.…); deltas, counts, custom = `_` | n(.n)*
+      meta       type:helpRef:unitRef
+      answer     v2.tr:   ok <ts1>* | panic | invalid         ts1 = labels|samples|exemplars|hists,
+                          labels = `_` | sym~sym(,…); exemplar labels joined by `.`
+                 v2.http: <status> [<samples>/<histograms>/<exemplars> written headers] <ts1>*  | panic
 -/
 open Thanos Thanos.Parse
 
@@ -82,7 +97,125 @@ def fan (http : Bool) (rf rep : Nat) (pl : List (List Nat)) (scripts : List (Lis
   | some [] => "bad-op"
   | some ((w, st) :: rest) => w ++ " " ++ "/".intercalate (st :: rest.map (·.2))
 
+/-! ### C26 -/
+section V2
+open Thanos.RWv2
+
+/-- list with `_` as the empty list -/
+def listU (c : Char) (s : String) : List String := if s = "_" then [] else splitChar c s
+
+def parseCnt (s : String) : Option Cnt :=
+  match s.toList with
+  | ['n'] => some .unset
+  | 'i' :: rest => (parseNat? (String.ofList rest)).map Cnt.int
+  | 'f' :: rest => (parseNat? (String.ofList rest)).map Cnt.float
+  | _ => none
+
+def parseSpan (s : String) : Option Span :=
+  match splitChar 'x' s with
+  | [o, l] => do pure ⟨← parseInt? o, ← parseNat? l⟩
+  | _ => none
+
+def natsU (s : String) : Option (List Nat) := (listU '.' s).mapM parseNat?
+def intsU (s : String) : Option (List Int) := (listU '.' s).mapM parseInt?
+def spansU (s : String) : Option (List Span) := (listU '.' s).mapM parseSpan
+
+def parseHist2 (s : String) : Option Hist2 :=
+  match splitChar ':' s with
+  | [cnt, sum, schema, zth, zcnt, ns, nd, nc, ps, pd, pc, hint, ts, custom, st] => do
+    let h : Hist := {
+      count := ← parseCnt cnt, sum := ← parseNat? sum, schema := ← parseInt? schema,
+      zeroThreshold := ← parseNat? zth, zeroCount := ← parseCnt zcnt,
+      negSpans := ← spansU ns, negDeltas := ← intsU nd, negCounts := ← natsU nc,
+      posSpans := ← spansU ps, posDeltas := ← intsU pd, posCounts := ← natsU pc,
+      resetHint := ← parseInt? hint, timestamp := ← parseInt? ts, customValues := ← natsU custom }
+    pure ⟨h, ← parseInt? st⟩
+  | _ => none
+
+def parseSample2 (s : String) : Option Sample2 :=
+  match splitChar ':' s with
+  | [v, t, st] => do pure ⟨← parseNat? v, ← parseInt? t, ← parseInt? st⟩
+  | _ => none
+
+def parseExemplar2 (s : String) : Option Exemplar2 :=
+  match splitChar ':' s with
+  | [r, v, t] => do pure ⟨← natsU r, ← parseNat? v, ← parseInt? t⟩
+  | _ => none
+
+def parseMeta (s : String) : Option Metadata :=
+  match splitChar ':' s with
+  | [a, b, c] => do pure ⟨← parseNat? a, ← parseNat? b, ← parseNat? c⟩
+  | _ => none
+
+def parseTS2 (s : String) : Option TS2 :=
+  match splitChar '|' s with
+  | [refs, samples, exemplars, hists, m] => do
+    pure ⟨← natsU refs, ← (listU ',' samples).mapM parseSample2, ← (listU ',' exemplars).mapM parseExemplar2,
+          ← (listU ',' hists).mapM parseHist2, ← parseMeta m⟩
+  | _ => none
+
+def parseSyms (s : String) : Option (List Sym) :=
+  (listU ',' s).mapM fun t => if t.startsWith "x" then some t else none
+
+def joinU (sep : String) (xs : List String) : String := if xs.isEmpty then "_" else sep.intercalate xs
+
+def showCnt : Cnt → String
+  | .unset => "n"
+  | .int v => s!"i{v}"
+  | .float b => s!"f{b}"
+
+def showSpans (xs : List Span) : String := joinU "." (xs.map fun s => s!"{s.offset}x{s.length}")
+def showNatsU (xs : List Nat) : String := joinU "." (xs.map toString)
+def showIntsU (xs : List Int) : String := joinU "." (xs.map toString)
+
+def showHist (h : Hist) : String :=
+  ":".intercalate [showCnt h.count, toString h.sum, toString h.schema, toString h.zeroThreshold, showCnt h.zeroCount,
+    showSpans h.negSpans, showIntsU h.negDeltas, showNatsU h.negCounts,
+    showSpans h.posSpans, showIntsU h.posDeltas, showNatsU h.posCounts,
+    toString h.resetHint, toString h.timestamp, showNatsU h.customValues]
+
+def showLabels (sep : String) (ls : List (Sym × Sym)) : String := joinU sep (ls.map fun l => l.1 ++ "~" ++ l.2)
+
+def showTS1 (t : TS1) : String :=
+  "|".intercalate [showLabels "," t.labels,
+    joinU "," (t.samples.map fun s => s!"{s.value}:{s.ts}"),
+    joinU "," (t.exemplars.map fun e => s!"{showLabels "." e.labels}:{e.value}:{e.ts}"),
+    joinU "," (t.hists.map showHist)]
+
+def v2tr (syms : List Sym) (req : List TS2) : String :=
+  match translate codeChecked syms req with
+  | .error .panic => "panic"
+  | .error .badRequest => "invalid"
+  | .ok ts => " ".intercalate ("ok" :: ts.map showTS1)
+
+/-- gogo's proto3 marshaller drops a scalar float field that compares equal to zero, so a request
+    cannot carry −0.0 (bits 2^63) in `Sample.value`, `Exemplar.value`, `Histogram.sum` or
+    `Histogram.zero_threshold` over the wire: such op lines are outside the HTTP op's domain -/
+def negZero : Nat := 9223372036854775808
+
+def carriesNegZero (req : List TS2) : Bool :=
+  req.any fun t =>
+    t.samples.any (·.value == negZero) || t.exemplars.any (·.value == negZero) ||
+    t.hists.any (fun h => h.h.sum == negZero || h.h.zeroThreshold == negZero)
+
+def v2http (syms : List Sym) (req : List TS2) : String :=
+  if carriesNegZero req then "bad-op" else
+  match handleV2 codeChecked syms req with
+  | .panic => "panic"
+  | .status c => toString c
+  | .accepted ns nh ne ts => " ".intercalate ("200" :: s!"{ns}/{nh}/{ne}" :: ts.map showTS1)
+
+end V2
+
 def handle : List String → String
+  | "v2.tr" :: syms :: tss =>
+    match parseSyms syms, tss.mapM parseTS2 with
+    | some syms, some req => v2tr syms req
+    | _, _ => "bad-op"
+  | "v2.http" :: syms :: tss =>
+    match parseSyms syms, tss.mapM parseTS2 with
+    | some syms, some req => v2http syms req
+    | _, _ => "bad-op"
   | ["fan", entry, rf, rep, placement, scripts] =>
     match parseNat? rf, parseNat? rep, parsePlacement placement, (splitChar '/' scripts).mapM parseScript with
     | some rf, some rep, some pl, some scs =>
